@@ -6,10 +6,10 @@ from fractions import Fraction
 
 from xvlib.core import Check
 from xvlib.frontend import AnalysisBroken
-from xvlib.absint import run_function, Inconclusive
+from xvlib.absint import run_function, Inconclusive, Interval
 from xvlib.facts import show, walk
 from xvlib.names import Names
-from xvlib.normform import Rat, Poly
+from xvlib.normform import Rat, Poly, subst
 from xvlib import datafiles, inittab
 
 
@@ -91,51 +91,11 @@ def run(prog, tier):
                why='composes L3M4 and L3M5')
 
     # ---- KA / KB ------------------------------------------------------------------------------
-    def weighted(slots):
-        num = Rat.const(0)
-        den = Rat.const(0)
-        for s in slots:
-            e = Rat.sym('LineEnergy_arr[%s][%d]' % (zname, s))
-            r = Rat.sym('RadRate_arr[%s][%d]' % (zname, s))
-            num = num + e * r
-            den = den + r
-        return num, den
-
-    klines = names.lines_of_shell('K')
-    ka_slots = [slot(n) for n in ('KL1', 'KL2', 'KL3')]
-    kb_all = [n for n in klines if n not in ('KL1', 'KL2', 'KL3')]
-    for grp, slots_required, slots_allowed in (
-            ('KA', set(ka_slots), set(ka_slots)),
-            ('KB', {slot(n) for n in kb_all if n in rates_present}, {slot(n) for n in kb_all})):
-        gv = names.group_value[grp]
-        ps = by_line.get(gv, [])
-        good = [p for p in ps if p.ret is not None and not p.ret.is_zero()]
-        loc = '%s:%d' % (U, good[0].ret_node['ln'] if good else LE['ln'])
-        ok = False
-        msg = 'no successful path'
-        if len(good) == 1:
-            r = good[0].ret
-            used = set()
-            for s_ in r.n.symbols() | r.d.symbols():
-                if s_.startswith('RadRate_arr[%s][' % zname):
-                    used.add(int(s_.split('][')[1].rstrip(']')))
-            num, den = weighted(sorted(used))
-            shape = r.equals(num / den)
-            missing = sorted(slots_required - used)
-            extra = sorted(used - slots_allowed)
-            ok = shape and not missing and not extra
-            inv = {v: k for k, v in ((n, slot(n)) for n in names.line_value)}
-            msg = '%s energy must be the rate-weighted mean over %s; %s%s%s' % (
-                grp, 'KL1..KL3' if grp == 'KA' else 'all K-M,N,O,P lines',
-                '' if shape else 'the returned expression is not sum(E*R)/sum(R) over one slot set; ',
-                'members with a shipped rate missing: %s; ' % [names.line_by_value[-s - 1] for s in missing] if missing else '',
-                'foreign slots included: %s' % extra if extra else '')
-            # failure path: sum of rates not positive -> error
-        fails = [p for p in ps if p.ret is not None and p.ret.is_zero()]
-        chk.decide(ok, '%s-energy' % grp, U, 'LineEnergy', grp + '_LINE', loc, msg,
-                   why='rate-weighted mean over %d slots' % (len(slots_required)))
-        chk.decide(bool(fails) and all(sets_error(p) for p in fails), '%s-energy' % grp, U, 'LineEnergy', grp + '_LINE no-rate',
-                   loc, '%s with no member rate must be an error' % grp, why='error when the rate sum is not positive')
+    # Specification: members = the K lines of the group (slots); a member takes part iff it has an energy; the KO / KP slots carry
+    # the rate of their whole group and take the energy of their first member; result = rate-weighted mean, else plain mean of the
+    # member energies, else error.  Decided on the body of the accumulation loop (one generic member) and on the statement that
+    # follows the loops.
+    kgroup(prog, chk, LE, names, rates_present, U)
     # ---- KO / KP ------------------------------------------------------------------------------
     for g, first in (('KO', 'KO1'), ('KP', 'KP1')):
         if g not in names.line_value:
@@ -189,46 +149,73 @@ def run(prog, tier):
         chk.bad('LB-energy', U, 'LineEnergy', 'LB_LINE shape', '%s:%d' % (U, LE['ln']), 'expected exactly one successful LB path, found %d' % len(ps))
 
     # ---- LineEnergyComposed -----------------------------------------------------------------------
+    # Specification (members i = 1, 2 with energy E_i >= 0, 0 meaning "no energy", and rate R_i >= 0):
+    #   present = {i : E_i > 0};  if sum_present E_i R_i > 0: that sum / sum_present R_i;  elif present: mean of E_present;  else error.
+    # Every abstract path is a scenario (which members are present, which branch was taken); its result must be the specified one.
     LC = prog.func('LineEnergyComposed', unit=U)
-    it2, cp = run_function(prog, LC)
+    nonneg = Interval(Fraction(0), None)
+    it2, cp = run_function(prog, LC, call_ranges={'LineEnergy': nonneg, 'RadRate': nonneg})
     z2, l1, l2 = (p['name'] for p in LC['params'][:3])
-    E1, E2 = Rat.sym('LineEnergy(%s,%s,0)' % (z2, l1)), Rat.sym('LineEnergy(%s,%s,0)' % (z2, l2))
-    R1, R2 = Rat.sym('RadRate(%s,%s,0)' % (z2, l1)), Rat.sym('RadRate(%s,%s,0)' % (z2, l2))
-    wmean = (E1 * R1 + E2 * R2) / (R1 + R2)
-    mean = (E1 + E2) / Rat.const(2)
-    rets = [p for p in cp if p.ret is not None]
-    got_w = [p for p in rets if p.ret.equals(wmean)]
-    got_m = [p for p in rets if p.ret.equals(mean)]
-    got_0 = [p for p in rets if p.ret.is_zero()]
+    E = [Rat.sym('LineEnergy(%s,%s,0)' % (z2, l1)), Rat.sym('LineEnergy(%s,%s,0)' % (z2, l2))]
+    R = [Rat.sym('RadRate(%s,%s,0)' % (z2, l1)), Rat.sym('RadRate(%s,%s,0)' % (z2, l2))]
     loc = '%s:%d' % (U, LC['ln'])
-    chk.decide(len(got_w) == 1, 'composed-formula', U, 'LineEnergyComposed', 'weighted-mean', loc,
-               'no path returns (E1*R1 + E2*R2)/(R1 + R2) with E_i = LineEnergy(Z, line_i), R_i = RadRate(Z, line_i); '
-               'returned: %s' % [p.ret.canon() for p in rets], why='(E1*R1+E2*R2)/(R1+R2)')
-    chk.decide(len(got_m) == 1, 'composed-formula', U, 'LineEnergyComposed', 'fallback-mean', loc,
-               'no path returns the plain mean (E1 + E2)/2 when no rates exist; returned: %s' % [p.ret.canon() for p in rets],
-               why='(E1+E2)/2')
-    chk.decide(len(got_0) >= 1 and all(sets_error(p) for p in got_0) and len(rets) == len(got_w) + len(got_m) + len(got_0),
-               'composed-formula', U, 'LineEnergyComposed', 'error', loc,
-               'the remaining path must report an error and return 0; returned: %s' % [p.ret.canon() for p in rets],
-               why='error + 0 otherwise')
-    # guards: weighted mean taken iff E1R1+E2R2 > 0 ; mean iff E1+E2 > 0
-    def guard_ok(p, expr, truth=True):
-        for c, t in p.conds:
-            if c.get('k') == 'BinaryOperator' and c['op'] == '>' and t is truth:
-                try:
-                    a = it2.eval(c['c'][0], p)
-                    b = it2.eval(c['c'][1], p)
-                    if (a - b).equals(expr):
-                        return True
-                except Exception:
-                    pass
-        return False
-    if got_w:
-        chk.decide(guard_ok(got_w[0], E1 * R1 + E2 * R2), 'composed-formula', U, 'LineEnergyComposed', 'weighted-guard', loc,
-                   'the weighted mean is not guarded by E1*R1 + E2*R2 > 0', why='taken when the weighted sum is positive')
-    if got_m:
-        chk.decide(guard_ok(got_m[0], E1 + E2), 'composed-formula', U, 'LineEnergyComposed', 'mean-guard', loc,
-                   'the plain mean is not guarded by E1 + E2 > 0', why='taken when a member has an energy')
+    rets = [p for p in cp if p.ret is not None]
+    chk.floor('LineEnergyComposed paths', len(rets), 3)
+    seen = set()
+    for p in rets:
+        pres = []
+        undecided = False
+        for e_ in E:
+            iv = it2.interval_of(e_, p)
+            if iv.lo is not None and (iv.lo > 0 or (iv.lo == 0 and iv.los)):
+                pres.append(True)
+            elif iv.hi is not None and iv.hi <= 0:
+                pres.append(False)
+            else:
+                pres.append(None)
+                undecided = True
+        inst = 'members present: %s' % ','.join({True: 'yes', False: 'no', None: '?'}[x] for x in pres)
+        r = p.ret
+        zero = {e_.canon(): Rat.const(0) for e_, pr in zip(E, pres) if pr is False}
+        r0 = subst(r, zero) if zero else r
+        num = Rat.const(0)
+        den = Rat.const(0)
+        cnt = 0
+        tot = Rat.const(0)
+        for e_, r_, pr in zip(E, R, pres):
+            if pr:
+                num = num + e_ * r_
+                den = den + r_
+                tot = tot + e_
+                cnt += 1
+        if r0.is_zero() and it2.is_zero(r, p):
+            kind = 'error'
+            ok = not any(pres) and not undecided and bool(sets_error(p))
+            msg = 'the error exit is reached although a member line has an energy (or its presence is not tested), or no error is reported'
+        else:
+            wiv = it2.interval_of(num, p) if cnt else None
+            weighted_taken = wiv is not None and wiv.lo is not None and (wiv.lo > 0 or (wiv.lo == 0 and wiv.los))
+            if weighted_taken:
+                kind = 'weighted'
+                ok = not undecided and cnt > 0 and r0.equals(num / den)
+                msg = 'with rates present the result must be sum(E_i R_i)/sum(R_i) over the members that HAVE an energy; found %s' % r.canon()[:200]
+            else:
+                kind = 'mean'
+                # the plain mean is the specified result only when the path establishes that the present members carry no rate
+                no_rates = cnt == 0 or (wiv is not None and wiv.hi is not None and wiv.hi <= 0)
+                ok = not undecided and cnt > 0 and no_rates and r0.equals(tot / Rat.const(cnt))
+                msg = ('without rates the result must be the plain mean of the member energies that are present (%d here), and that exit may only be taken '
+                       'when sum(E_i R_i) over the present members is not positive%s; found %s' % (
+                           cnt, '' if no_rates else ' (this path does not establish it: the branch condition is not the weighted sum of the members)', r.canon()[:200]))
+        key = (kind, inst)
+        if key in seen and ok:
+            continue
+        seen.add(key)
+        chk.decide(ok, 'composed-formula', U, 'LineEnergyComposed', '%s %s' % (kind, inst), loc, msg,
+                   why={'weighted': 'rate-weighted mean over the members present', 'mean': 'plain mean of the members present', 'error': 'error when no member has an energy'}[kind])
+    kinds = {k for k, _ in seen}
+    chk.decide({'weighted', 'mean', 'error'} <= kinds, 'composed-formula', U, 'LineEnergyComposed', 'all-three-outcomes', loc,
+               'a composed line must have the three outcomes weighted mean / plain mean / error; found %s' % sorted(kinds), why='weighted, mean, error')
 
     # ---- RadRate ----------------------------------------------------------------------------------
     RU = 'src/radrate.c'
@@ -305,3 +292,134 @@ def lb_lists(prog, names):
         if mem:
             out['%s:%s' % (unit, f['name'])] = mem
     return out
+
+
+def kgroup(prog, chk, LE, names, rates_present, U):
+    from xvlib.absint import Interp
+    zname = LE['params'][0]['name']
+    ids = {}
+    for n in walk(LE['body']):
+        if n.get('k') == 'DeclStmt':
+            for d in n.get('decls', []):
+                ids[d['name']] = d['id']
+
+    def frag(stmt):
+        f2 = dict(LE)
+        f2['body'] = stmt if stmt.get('k') == 'CompoundStmt' else {'k': 'CompoundStmt', 'c': [stmt]}
+        it = Interp(prog, f2)
+        it.assume_patterns = []
+        return it, it.run()
+    slot = names.line_slot
+    klines = names.lines_of_shell('K')
+    groups_first = {slot('KO'): slot('KO1'), slot('KP'): slot('KP1')} if 'KO' in names.line_value and 'KP' in names.line_value else {}
+    # the two accumulation loops: for (i = A; i <= / < B; i++) inside the branch of the group
+    loops = [n for n in walk(LE['body']) if n.get('k') == 'ForStmt' and any(
+        x.get('k') == 'DeclRefExpr' and x.get('name') == 'RadRate_arr' for x in walk(n.get('body') or {})) and
+        any(x.get('k') == 'DeclRefExpr' and x.get('name') == 'LineEnergy_arr' for x in walk(n.get('body') or {}))]
+    chk.floor('K group accumulation loops', len(loops), 2)
+    want_ranges = {'KA': (slot('KL1'), slot('KL3')),
+                   'KB': (min(slot(n) for n in klines if n not in ('KL1', 'KL2', 'KL3')), None)}
+    kb_required = {slot(n) for n in klines if n not in ('KL1', 'KL2', 'KL3') and (n in rates_present)}
+    kb_allowed = {slot(n) for n in klines if n not in ('KL1', 'KL2', 'KL3')}
+    for lp in loops:
+        loc = '%s:%d' % (U, lp['ln'])
+        # range
+        lo = None
+        for a in walk(lp.get('init') or {}):
+            if a.get('k') == 'BinaryOperator' and a.get('op') == '=' and isinstance(a['c'][1].get('v'), int):
+                lo = a['c'][1]['v']
+        cond = lp.get('cond') or {}
+        hi = cond['c'][1].get('v') if cond.get('c') and isinstance(cond['c'][1].get('v'), int) else None
+        if cond.get('op') == '<' and hi is not None:
+            hi -= 1
+        grp = 'KA' if lo == want_ranges['KA'][0] else 'KB'
+        covered = set(range(lo, hi + 1)) if lo is not None and hi is not None else set()
+        if grp == 'KA':
+            okr = covered == {slot('KL1'), slot('KL2'), slot('KL3')}
+        else:
+            okr = kb_required <= covered <= kb_allowed
+        chk.decide(okr, '%s-energy' % grp, U, 'LineEnergy', grp + '_LINE members', loc,
+                   '%s must run over %s; the loop covers slots %s..%s (missing members with a shipped rate: %s, foreign slots: %s)' % (
+                       grp, 'KL1..KL3' if grp == 'KA' else 'the K-M,N,O,P lines', lo, hi,
+                       sorted(names.line_by_value.get(-s - 1) for s in (kb_required - covered)) if grp == 'KB' else '',
+                       sorted(covered - (kb_allowed if grp == 'KB' else covered))),
+                   why='loop over the %d member slots' % len(covered))
+        # one generic member
+        it, paths = frag(lp['body'])
+        ivar = None
+        for x in walk(lp.get('inc') or {}):
+            if x.get('k') == 'DeclRefExpr':
+                ivar = x
+        i = Rat.sym(ivar['name'])
+        acc = {}
+        for p in paths:
+            if p.status not in ('end', 'cont', 'run'):
+                continue
+            # which slot is this member (group entries are distinguished by equality facts on i)
+            ival = it.interval_of(i, p)
+            special = int(ival.lo) if ival.lo is not None and ival.lo == ival.hi else None
+            e_slot = groups_first.get(special, None)
+            # the loop reads the tables with the symbolic counter; the group entries read the energy of a constant slot
+            Ei = Rat.sym('LineEnergy_arr[%s][%s]' % (zname, e_slot if e_slot is not None else ivar['name']))
+            Ri = Rat.sym('RadRate_arr[%s][%s]' % (zname, ivar['name']))
+            eiv = it.interval_of(Ei, p)
+            present = eiv.lo is not None and (eiv.lo > 0 or (eiv.lo == 0 and eiv.los))
+            absent = eiv.hi is not None and eiv.hi <= 0
+            d = {}
+            for nm in ('tmp', 'tmp1', 'tmp2', 'n'):
+                v = p.env.get(ids.get(nm))
+                d[nm] = (v - Rat.sym(nm)) if v is not None else Rat.const(0)
+            tag = 'group-entry %s' % names.line_by_value.get(-special - 1) if special in groups_first else 'member'
+            if absent:
+                ok = all(x.is_zero() for x in d.values())
+                chk.decide(ok, '%s-energy' % grp, U, 'LineEnergy', '%s_LINE %s without energy' % (grp, tag), loc,
+                           'a member line without an energy must not take part: neither its rate nor a zero energy may be added', why='skipped')
+            elif present:
+                okw = d['tmp1'].equals(Ri) and d['tmp'].equals(Ei * Ri)
+                okm = (d['tmp2'].equals(Ei) and d['n'].equals(Rat.const(1))) if special not in groups_first else (d['tmp2'].is_zero() and d['n'].is_zero())
+                chk.decide(okw and okm, '%s-energy' % grp, U, 'LineEnergy', '%s_LINE %s with energy' % (grp, tag), loc,
+                           'a member with an energy must add its rate and energy x rate (energy of the first member line for the KO/KP group entries), and '
+                           'count once in the plain mean unless it is a group entry; found d(rate sum) = %s, d(weighted sum) = %s, d(energy sum) = %s, d(count) = %s' % (
+                               d['tmp1'].canon(), d['tmp'].canon(), d['tmp2'].canon(), d['n'].canon()),
+                           why='adds R_i and E_i R_i; counted in the plain mean')
+            else:
+                chk.bad('%s-energy' % grp, U, 'LineEnergy', '%s_LINE %s presence-untested' % (grp, tag), loc,
+                        'the accumulation does not test whether the member line has an energy: a member with a rate but no energy pulls the mean towards 0 '
+                        '(K-beta of every element from Z = 50 on lay below all of its member lines)')
+            acc[tag + (' present' if present else ' absent' if absent else ' ?')] = True
+        if grp == 'KB' and groups_first:
+            chk.decide(any(k.startswith('group-entry') for k in acc), 'KB-energy', U, 'LineEnergy', 'KB_LINE group entries', loc,
+                       'the KO and KP entries (rate of the whole group, no energy of their own) are not given the energy of their first member',
+                       why='KO/KP use the energy of KO1/KP1')
+    # the statement after the loops: weighted mean, else plain mean, else error
+    parent = None
+    for n in walk(LE['body']):
+        if n.get('k') == 'CompoundStmt':
+            kids = n.get('c', [])
+            for j, k_ in enumerate(kids):
+                if k_.get('k') == 'IfStmt' and any(l in list(walk(k_)) for l in loops) and j + 1 < len(kids):
+                    parent = kids[j + 1]
+    if parent is None:
+        chk.bad('KA-energy', U, 'LineEnergy', 'result statement', '%s:%d' % (U, LE['ln']), 'cannot find the statement that turns the sums into the result')
+        return
+    it, paths = frag(parent)
+    T, T1, T2, N = (Rat.sym(x) for x in ('tmp', 'tmp1', 'tmp2', 'n'))
+    kinds = set()
+    okall = True
+    for p in paths:
+        if p.ret is None:
+            continue
+        t1 = it.interval_of(T1, p)
+        nn = it.interval_of(N, p)
+        if t1.lo is not None and (t1.lo > 0 or (t1.lo == 0 and t1.los)):
+            kinds.add('weighted')
+            okall = okall and p.ret.equals(T / T1)
+        elif nn.lo is not None and nn.lo >= 1:
+            kinds.add('mean')
+            okall = okall and p.ret.equals(T2 / N)
+        else:
+            kinds.add('error')
+            okall = okall and it.is_zero(p.ret, p) and bool(sets_error(p))
+    chk.decide(okall and kinds == {'weighted', 'mean', 'error'}, 'KA-energy', U, 'LineEnergy', 'KA/KB result', '%s:%d' % (U, parent['ln']),
+               'after the sums: rate sum > 0 -> weighted sum / rate sum; else members with an energy exist -> energy sum / count; else error. Found outcomes %s' % sorted(kinds),
+               why='weighted mean, else plain mean, else error')
